@@ -6,7 +6,16 @@ import time
 import traceback
 
 
+def _die_with_parent():
+    try:
+        import ctypes
+        ctypes.CDLL(None).prctl(1, signal.SIGKILL)  # PR_SET_PDEATHSIG
+    except Exception:  # noqa: BLE001
+        pass
+
+
 def _worker(conn, func):
+    _die_with_parent()
     while True:
         try:
             msg = conn.recv()
